@@ -695,7 +695,7 @@ impl<'a> Unpackable<'a> for sfixed64 {
 pub struct float(pub f32);
 
 impl FieldType<'_> for float {
-    const WIRE_TYPE: WireType = WireType::SixtyFour;
+    const WIRE_TYPE: WireType = WireType::ThirtyTwo;
 
     type Native = f32;
 
